@@ -263,7 +263,9 @@ impl DirectCacheManager {
             let mut buf = Vec::new();
             {
                 let mut writer = Writer::new(&mut buf);
-                let value_do = v.value.to_do(key);
+                let mut value_do = v.value.to_do(key);
+                // the expiry time of the entry (absolute seconds, -1 = never) is what load_snapshot_record hands to do_set
+                value_do.timeout = v.expire;
                 writer.write_message(&value_do)?;
             }
             let record = SnapshotRecordDto {
